@@ -7,14 +7,19 @@ import subprocess
 
 V = "/verif"
 NOTE = ("Trusted: Coq 8.16.1 kernel (no native_compute, no axioms: every pinned theorem prints 'Closed under the global context'); "
-        "the hand-written Gallina model coq/theories/*.v, tied to /repo's working tree on every run only by the correspondence check "
-        "(extracted model, ExtrOcamlBasic, vs the real crate built with --cfg circular_buffer_verif, same cases, projections diffed); "
-        "the Rust harness, case generators and differ; std/rustc semantics listed in DESIGN.md 3.4 are modelled, not verified. "
-        "Case space: every layout of the small capacities exhaustively, sampled edge/random layouts of capacities 9..257, 1000, 4096 "
-        "with boundary-biased arguments, 16- and 96-byte tracked element types, u8 and a zero-sized type. Every check also compares a "
-        "SHA-256 fingerprint of the token stream of each function the property depends on with the text the model was written against "
-        "(tools/srcfp.py); if it differs the search is widened to capacities derived from the new integer literals, and the result is "
-        "reported with the failing input or as no-failing-input-found.")
+        "the hand-written Gallina model coq/theories/*.v, tied to /repo's working tree on every run in two ways: (1) 114 functions "
+        "(single-element core, truncation, fills, the three iterators, drain, the I/O traits) are regenerated from src/*.rs by the "
+        "translator tools/rs2coq_core and proved equal to the hand-written definitions (coq/gen/CoreGenProofs.v); (2) the "
+        "correspondence check (extracted model, ExtrOcamlBasic only, validated against vm_compute on every run, vs the real crate built "
+        "with --cfg circular_buffer_verif, same cases, projections diffed). The translators, the Rust harness, case generators and differ "
+        "are trusted; std/rustc semantics listed in DESIGN.md 3.4 are modelled, not verified. "
+        "Case space: every layout of the small capacities exhaustively, edge/random layouts of capacities 9..257, 1000, 4096 "
+        "with boundary-biased arguments, tracked element types of 16 and 256 bytes with and without a destructor and one of steerable "
+        "size, u8 and a zero-sized type (capacities up to 2^64-1). Every check also compares a SHA-256 fingerprint of the token stream of "
+        "each function the property depends on with the text the model was written against (tools/srcfp.py); a changed function whose "
+        "regenerated model is still proved equal is accepted as a harmless rewrite; otherwise the search is widened to capacities, "
+        "lengths and element sizes derived from the new integer literals, and the result is reported with the failing input or as "
+        "no-failing-input-found.")
 
 T = {
  "C01": ("refinement proof (exec refines spec_step on abs) + exhaustive small-N differential correspondence",
